@@ -473,7 +473,12 @@ func c17Memory(c *ev.Ctx, r *rand.Rand, caseN int) {
 		}
 	}()
 	var maxSeen int64
-	for k := 0; k < 60; k++ {
+	polls := 60
+	if caseN%20 == 0 {
+		polls = 2600 // a peer that does not read for 1.3 s: the limit must hold however long the stall lasts
+		c.Count("memory_runs_with_a_stall_over_1s", 1)
+	}
+	for k := 0; k < polls; k++ {
 		time.Sleep(500 * time.Microsecond)
 		if p := s.VerifPendingResponsesSize(); p > maxSeen {
 			maxSeen = p
